@@ -63,6 +63,8 @@ def lift(v):
         return v
     if isinstance(v, NPhi):
         return var('nphi', 's')
+    if isinstance(v, Linspace):
+        return var('phi', 'p')
     if isinstance(v, RowS):
         return v
     if is_num(v):
@@ -234,6 +236,8 @@ class Interp:
             v = cst(v)
         if isinstance(v, NPhi) and is_attr:
             v = var('nphi', 's')
+        if isinstance(v, Linspace) and is_attr:
+            v = lift(v)
         if isinstance(v, E) and not isinstance(v, RowS):
             ref = self.emit(full, v)
             if is_attr:
